@@ -1,1 +1,812 @@
-fn main() {}
+//! C32: Debug redaction, implementation side.
+//!
+//! For random and structured private values and random public values, builds every secret-bearing type of
+//! the wormhole circuit / prover through its real constructors and takes `format!("{:?}")` and
+//! `format!("{:#?}")` of it.
+//!
+//!   default mode : prints one case per (type, constructor, mode): all fields (public AND private) as the
+//!                  segments, the bytes of the real string as the output. The runner diffs them against the
+//!                  Coq model's rendering (coq/Sys/DebugRender.v), which is a function of the public fields only.
+//!   --check      : no cases; on the same value stream (and more of it)
+//!                  (b) a twin with the same public fields and every private field re-drawn must render
+//!                      byte-identically,
+//!                  (c) no rendering of any private value (decimal, hex, byte lists, felt encodings) may occur
+//!                      in any output.
+//!                  Failures are `#violation` note lines, counts are `#needles`, `#pairs`, ...
+#![allow(clippy::all)]
+use std::collections::{HashMap, HashSet};
+use std::fmt::Debug;
+
+use plonky2::field::goldilocks_field::GoldilocksField as F;
+use plonky2::field::types::PrimeField64;
+use verif_harness::*;
+use wormhole_circuit::block_header::header::{HeaderInputs, DIGEST_LOGS_SIZE};
+use wormhole_circuit::block_header::BlockHeader;
+use wormhole_circuit::inputs::{CircuitInputs, PrivateCircuitInputs, PublicCircuitInputs};
+use wormhole_circuit::nullifier::Nullifier;
+use wormhole_circuit::sensitive::Secret;
+use wormhole_circuit::unspendable_account::UnspendableAccount;
+use wormhole_circuit::zk_merkle_proof::{ZkLeafData, ZkMerkleProof, ZkMerkleProofData};
+use zk_circuits_common::utils::{bytes_to_felts, digest_to_bytes, u64_to_felts, BytesDigest};
+use zk_circuits_common::zk_merkle::MAX_DEPTH;
+
+type B32 = [u8; 32];
+
+// ------------------------------------------------------------------------------------------------ values
+
+#[derive(Clone)]
+struct Publ {
+    asset_id: u32,
+    out1: u32,
+    out2: u32,
+    fee: u32,
+    block_number: u32,
+    nullifier: B32,
+    exit1: B32,
+    exit2: B32,
+    block_hash: B32,
+    parent_hash: B32,
+    state_root: B32,
+    extrinsics_root: B32,
+    /// `[u8; 32]` in PrivateCircuitInputs: may be non-canonical (then HeaderInputs cannot be built)
+    zk_tree_root: B32,
+    /// the `depth` field of a ZkMerkleProofData built as a struct literal
+    literal_depth: usize,
+    literal_dummy: bool,
+}
+
+#[derive(Clone)]
+struct Priv {
+    tag: &'static str,
+    secret: B32,
+    transfer_count: u64,
+    unspendable: B32,
+    digest: [u8; DIGEST_LOGS_SIZE],
+    input_amount: u32,
+    siblings: Vec<[B32; 3]>,
+    positions: Vec<u8>,
+}
+
+fn canonical_limbs(b: &B32) -> bool {
+    digest_limbs(b).iter().all(|&l| l < P)
+}
+
+fn pub_scalar(r: &mut Rng) -> u32 {
+    match r.below(4) {
+        0 => r.below(1 << 32) as u32,
+        1 => *r.pick(&[0u32, 1, 10, 100, 10000, u32::MAX, u32::MAX - 1, 0x8000_0000]),
+        2 => r.below(100) as u32,
+        _ => r.below(1_000_000) as u32,
+    }
+}
+
+fn limb_boundary(r: &mut Rng) -> u64 {
+    *r.pick(&[P - 1, P - 2, 1u64 << 32, 0xFFFF_FFFF, 1 << 63, 0xFFFF_FFFE_FFFF_FFFF, 1, 0x0100_0000_0000_0000])
+}
+
+/// a canonical 32-byte digest (every little-endian 8-byte limb < p)
+fn pub_digest(r: &mut Rng, structured: bool) -> B32 {
+    match if structured { r.below(6) } else { 9 } {
+        0 => [0u8; 32],
+        1 => {
+            let b = 1 + r.below(0xFE) as u8;
+            [b; 32]
+        }
+        2 => {
+            let s = r.below(200) as u8;
+            let mut o = [0u8; 32];
+            for i in 0..32 {
+                o[i] = s.wrapping_add(i as u8);
+            }
+            if canonical_limbs(&o) {
+                o
+            } else {
+                [0x11; 32]
+            }
+        }
+        3 => limbs_digest(&[limb_boundary(r), limb_boundary(r), limb_boundary(r), limb_boundary(r)]),
+        _ => limbs_digest(&[r.next() % P, r.next() % P, r.next() % P, r.next() % P]),
+    }
+}
+
+/// `plain`: no boundary values or zero digests on the public side (used when the private side is made of
+/// boundary values, which otherwise could not be told apart from public ones such as u32::MAX)
+fn gen_public(r: &mut Rng, plain: bool) -> Publ {
+    let dummy = !plain && r.chance(1, 10);
+    // two thirds of the public sides are plain random digests (no pattern a structured private value could share)
+    let st = !plain && r.chance(1, 3);
+    let pub_scalar = |r: &mut Rng| if plain { 1000 + r.below(1 << 30) as u32 } else { pub_scalar(r) };
+    let mut p = Publ {
+        asset_id: pub_scalar(r),
+        out1: pub_scalar(r),
+        out2: pub_scalar(r),
+        fee: pub_scalar(r),
+        block_number: pub_scalar(r),
+        nullifier: pub_digest(r, st),
+        exit1: pub_digest(r, st),
+        exit2: pub_digest(r, st),
+        block_hash: pub_digest(r, st),
+        parent_hash: pub_digest(r, st),
+        state_root: pub_digest(r, st),
+        extrinsics_root: pub_digest(r, st),
+        zk_tree_root: pub_digest(r, st),
+        literal_depth: match r.below(3) {
+            0 => r.below(MAX_DEPTH as u64 + 1) as usize,
+            1 => r.below(1000) as usize,
+            _ => r.next() as usize,
+        },
+        literal_dummy: r.chance(1, 2),
+    };
+    if dummy {
+        p.block_hash = [0u8; 32];
+        p.out1 = 0;
+        p.out2 = 0;
+    }
+    if !plain && r.chance(1, 12) {
+        // non-canonical root bytes: fine for PrivateCircuitInputs / ZkMerkleProofData, rejected by HeaderInputs
+        p.zk_tree_root = limbs_digest(&[P + r.below(1000), u64::MAX, r.next(), P]);
+    }
+    p
+}
+
+const PRIV_TAGS: [&str; 6] = ["random", "allsame", "ascii", "counting", "boundary", "small"];
+
+fn priv_bytes<const N: usize>(r: &mut Rng, tag: &str, canonical: bool) -> [u8; N] {
+    let mut o = [0u8; N];
+    match tag {
+        "allsame" => {
+            // 0xAB.. style; 0xFF would make a non-canonical limb
+            let b = *r.pick(&[0xABu8, 0xCD, 0xEE, 0x5A, 0x7F, 0x80, 0x01, 0xFE]);
+            o = [b; N];
+        }
+        "ascii" => {
+            let text = *r.pick(&[
+                &b"correct horse battery staple / wormhole spend secret #"[..],
+                &b"SECRET-KEY-DO-NOT-LOG-0123456789-abcdefghijklmnopqrstuvwxyz"[..],
+                &b"deposit:alice->unspendable;transfer_count=;amount="[..],
+            ]);
+            let off = r.below(text.len() as u64) as usize;
+            for i in 0..N {
+                o[i] = text[(off + i) % text.len()];
+            }
+        }
+        "counting" => {
+            let s = r.below(256) as u8;
+            let step = *r.pick(&[1u8, 3, 7, 255]);
+            for i in 0..N {
+                o[i] = s.wrapping_add(step.wrapping_mul(i as u8));
+            }
+        }
+        "boundary" => {
+            for c in 0..(N + 7) / 8 {
+                let l = r
+                    .pick(&[P - 1, P - 2, 0xFFFF_FFFE_FFFF_FFFF, (1u64 << 63) | 1, 0x7FFF_FFFF_FFFF_FFFF, 0xFFFF_FFFF_0000_0000 - 1, 0x0101_0101_0101_0101])
+                    .to_le_bytes();
+                for k in 0..8 {
+                    if c * 8 + k < N {
+                        o[c * 8 + k] = l[k];
+                    }
+                }
+            }
+        }
+        _ => {
+            for i in 0..N {
+                o[i] = r.next() as u8;
+            }
+        }
+    }
+    if canonical && N == 32 {
+        // clamp every limb below p (keeps the pattern except in the top bytes of an offending limb)
+        for c in 0..4 {
+            let mut l = u64::from_le_bytes(o[c * 8..c * 8 + 8].try_into().unwrap());
+            if l >= P {
+                l -= P;
+                l |= 0x0101_0101_0000_0000;
+                o[c * 8..c * 8 + 8].copy_from_slice(&l.to_le_bytes());
+            }
+        }
+    }
+    o
+}
+
+fn gen_private(r: &mut Rng, tag: &'static str, depth: usize) -> Priv {
+    let (tc, amt) = match tag {
+        // realistic small values: too short to be searched for, still covered by the exact diff and the twins
+        "small" => (r.below(1000), r.below(10000) as u32),
+        "boundary" => (
+            *r.pick(&[u64::MAX, u64::MAX - 1, 1 << 63, 1 << 32, (1 << 32) + 1, P, P - 1, 0xFFFF_FFFF_0000_0000, 0x1_0000_0000 - 1 + (1 << 40)]),
+            *r.pick(&[u32::MAX, u32::MAX - 1, 0x8000_0000, 0x7FFF_FFFF, 1 << 20, 0x0100_0000]),
+        ),
+        "allsame" => {
+            let b = *r.pick(&[0xABu64, 0xCD, 0xEE, 0x5A, 0x77, 0x99]);
+            (b * 0x0101_0101_0101_0101, (*r.pick(&[0xCDu64, 0xAB, 0x5A, 0x77, 0x99, 0xEE]) * 0x0101_0101) as u32)
+        }
+        "counting" => (*r.pick(&[0x0123_4567_89AB_CDEFu64, 0xFEDC_BA98_7654_3210, 1234567890123456789, 9876543210]), *r.pick(&[0x1234_5678u32, 0x8765_4321, 1234567890, 987654321])),
+        _ => ((1 << 20) + r.next() % (u64::MAX - (1 << 20)), (1 << 20) + (r.next() % ((1u64 << 32) - (1 << 20))) as u32),
+    };
+    let btag = if tag == "small" { "random" } else { tag };
+    let mut siblings = vec![];
+    for _ in 0..depth {
+        // siblings are raw [u8; 32]: occasionally non-canonical
+        let canon = !r.chance(1, 10);
+        siblings.push([priv_bytes::<32>(r, btag, canon), priv_bytes::<32>(r, btag, canon), priv_bytes::<32>(r, btag, canon)]);
+    }
+    Priv {
+        tag,
+        secret: priv_bytes::<32>(r, btag, true),
+        transfer_count: tc,
+        unspendable: priv_bytes::<32>(r, btag, true),
+        digest: priv_bytes::<DIGEST_LOGS_SIZE>(r, btag, false),
+        input_amount: amt,
+        siblings,
+        positions: (0..depth).map(|_| r.below(4) as u8).collect(),
+    }
+}
+
+fn bd(b: &B32) -> BytesDigest {
+    BytesDigest::try_from(*b).expect("canonical digest")
+}
+
+fn mk_public(p: &Publ) -> PublicCircuitInputs {
+    PublicCircuitInputs {
+        asset_id: p.asset_id,
+        output_amount_1: p.out1,
+        output_amount_2: p.out2,
+        volume_fee_bps: p.fee,
+        nullifier: bd(&p.nullifier),
+        exit_account_1: bd(&p.exit1),
+        exit_account_2: bd(&p.exit2),
+        block_hash: bd(&p.block_hash),
+        block_number: p.block_number,
+    }
+}
+fn mk_private(p: &Publ, v: &Priv) -> PrivateCircuitInputs {
+    PrivateCircuitInputs {
+        secret: Secret::from(bd(&v.secret)),
+        transfer_count: v.transfer_count,
+        unspendable_account: bd(&v.unspendable),
+        parent_hash: bd(&p.parent_hash),
+        state_root: bd(&p.state_root),
+        extrinsics_root: bd(&p.extrinsics_root),
+        digest: v.digest,
+        input_amount: v.input_amount,
+        zk_tree_root: p.zk_tree_root,
+        zk_merkle_siblings: v.siblings.clone(),
+        zk_merkle_positions: v.positions.clone(),
+    }
+}
+fn mk_inputs(p: &Publ, v: &Priv) -> CircuitInputs {
+    CircuitInputs { public: mk_public(p), private: mk_private(p, v) }
+}
+
+// ------------------------------------------------------------------------------------------------ segments
+
+fn sf(fs: &[F]) -> Seg {
+    fs.iter().map(|f| f.0 as i128).collect()
+}
+fn s1(x: u64) -> Seg {
+    vec![x as i128]
+}
+fn flat_sib_bytes(s: &[[B32; 3]]) -> Seg {
+    s.iter().flat_map(|l| l.iter()).flat_map(|h| h.iter()).map(|&b| b as i128).collect()
+}
+fn flat_sib_felts(s: &[[[F; 4]; 3]]) -> Seg {
+    s.iter().flat_map(|l| l.iter()).flat_map(|h| h.iter()).map(|f| f.0 as i128).collect()
+}
+fn segs_public(p: &PublicCircuitInputs) -> Vec<Seg> {
+    vec![
+        vec![p.asset_id as i128, p.output_amount_1 as i128, p.output_amount_2 as i128, p.volume_fee_bps as i128, p.block_number as i128],
+        seg_bytes(&*p.nullifier),
+        seg_bytes(&*p.exit_account_1),
+        seg_bytes(&*p.exit_account_2),
+        seg_bytes(&*p.block_hash),
+    ]
+}
+fn segs_private(v: &PrivateCircuitInputs) -> Vec<Seg> {
+    vec![
+        seg_bytes(v.secret.as_bytes()),
+        vec![v.transfer_count as i128, v.input_amount as i128],
+        seg_bytes(&*v.unspendable_account),
+        seg_bytes(&*v.parent_hash),
+        seg_bytes(&*v.state_root),
+        seg_bytes(&*v.extrinsics_root),
+        seg_bytes(&v.digest),
+        seg_bytes(&v.zk_tree_root),
+        flat_sib_bytes(&v.zk_merkle_siblings),
+        seg_bytes(&v.zk_merkle_positions),
+    ]
+}
+fn segs_leaf(l: &ZkLeafData) -> Vec<Seg> {
+    vec![sf(&l.to_account), sf(&l.transfer_count), sf(&[l.asset_id, l.input_amount, l.output_amount_1, l.output_amount_2, l.volume_fee_bps])]
+}
+fn segs_merkle(m: &ZkMerkleProofData) -> Vec<Seg> {
+    let mut s = vec![sf(&m.root_hash), vec![m.depth as i128, m.is_not_dummy as i128], flat_sib_felts(&m.siblings), seg_bytes(&m.positions)];
+    s.extend(segs_leaf(&m.leaf));
+    s
+}
+fn segs_header(h: &HeaderInputs) -> Vec<Seg> {
+    vec![sf(&h.parent_hash), sf(&[h.block_number]), sf(&h.state_root), sf(&h.extrinsics_root), sf(&h.zk_tree_root), sf(&h.digest)]
+}
+
+/// one rendered object: what was rendered, the model inputs, the two real strings
+struct Rendered {
+    fid: u32,
+    what: &'static str,
+    segs: Vec<Seg>,
+    compact: String,
+    pretty: String,
+}
+fn rendered(fid: u32, what: &'static str, segs: Vec<Seg>, v: &dyn Debug) -> Rendered {
+    Rendered { fid, what, segs, compact: format!("{:?}", v), pretty: format!("{:#?}", v) }
+}
+
+/// Every secret-bearing object that can be built from (p, v), through the real constructors.
+/// `with_prover`: also build and commit a WormholeProver (tens of ms).
+fn build_all(p: &Publ, v: &Priv, with_prover: bool, skipped: &mut HashMap<&'static str, u64>) -> Vec<Rendered> {
+    let mut o = vec![];
+    let ci = mk_inputs(p, v);
+    o.push(rendered(3201, "PublicCircuitInputs", segs_public(&ci.public), &ci.public));
+    o.push(rendered(3202, "PrivateCircuitInputs", segs_private(&ci.private), &ci.private));
+    let mut s = segs_public(&ci.public);
+    s.extend(segs_private(&ci.private));
+    o.push(rendered(3203, "CircuitInputs", s, &ci));
+
+    // Nullifier: `transfer_count` is a private field, the segment is what went in (u64_to_felts)
+    let tcf = u64_to_felts(v.transfer_count);
+    let n = Nullifier::new(bd(&p.nullifier), bd(&v.secret), v.transfer_count);
+    o.push(rendered(3204, "Nullifier::new", vec![sf(&n.hash), seg_bytes(n.secret.as_bytes()), sf(&tcf)], &n));
+    let n = Nullifier::from(&ci);
+    o.push(rendered(3204, "Nullifier::from(&CircuitInputs)", vec![sf(&n.hash), seg_bytes(n.secret.as_bytes()), sf(&tcf)], &n));
+    let n = Nullifier::from_preimage(bd(&v.secret), v.transfer_count);
+    o.push(rendered(3204, "Nullifier::from_preimage", vec![sf(&n.hash), seg_bytes(n.secret.as_bytes()), sf(&tcf)], &n));
+
+    let u = UnspendableAccount::new(bd(&v.unspendable), bd(&v.secret));
+    o.push(rendered(3205, "UnspendableAccount::new", vec![sf(&u.account_id), seg_bytes(u.secret.as_bytes())], &u));
+    let u = UnspendableAccount::from_secret(bd(&v.secret));
+    o.push(rendered(3205, "UnspendableAccount::from_secret", vec![sf(&u.account_id), seg_bytes(u.secret.as_bytes())], &u));
+    let u = UnspendableAccount::from(&ci);
+    o.push(rendered(3205, "UnspendableAccount::from(&CircuitInputs)", vec![sf(&u.account_id), seg_bytes(u.secret.as_bytes())], &u));
+
+    let leaf = ZkLeafData::new(v.unspendable, v.transfer_count, p.asset_id, v.input_amount, p.out1, p.out2, p.fee);
+    o.push(rendered(3206, "ZkLeafData::new", segs_leaf(&leaf), &leaf));
+
+    match ZkMerkleProofData::try_from(&ci) {
+        Ok(m) => o.push(rendered(3207, "ZkMerkleProofData::try_from(&CircuitInputs)", segs_merkle(&m), &m)),
+        Err(_) => *skipped.entry("ZkMerkleProofData::try_from Err").or_default() += 1,
+    }
+    let m = ZkMerkleProofData::new(p.zk_tree_root, v.siblings.clone(), v.positions.clone(), leaf.clone(), !p.literal_dummy);
+    o.push(rendered(3207, "ZkMerkleProofData::new", segs_merkle(&m), &m));
+    // all fields are pub: a literal whose `depth` is unrelated to the (private) path length
+    let mut m = m;
+    m.depth = p.literal_depth;
+    m.positions.push((v.transfer_count % 4) as u8);
+    o.push(rendered(3207, "ZkMerkleProofData{..}", segs_merkle(&m), &m));
+
+    match HeaderInputs::try_from(&ci) {
+        Ok(h) => {
+            o.push(rendered(3208, "HeaderInputs::try_from(&CircuitInputs)", segs_header(&h), &h));
+            let bh = BlockHeader::new(bd(&p.block_hash), h).unwrap();
+            let mut s = vec![sf(&bh.block_hash)];
+            s.extend(segs_header(&bh.header));
+            o.push(rendered(3209, "BlockHeader::new", s, &bh));
+        }
+        Err(_) => *skipped.entry("HeaderInputs::try_from Err (non-canonical zk_tree_root)").or_default() += 1,
+    }
+    match BlockHeader::try_from(&ci) {
+        Ok(bh) => {
+            let mut s = vec![sf(&bh.block_hash)];
+            s.extend(segs_header(&bh.header));
+            o.push(rendered(3209, "BlockHeader::try_from(&CircuitInputs)", s, &bh));
+        }
+        Err(_) => *skipped.entry("BlockHeader::try_from Err (non-canonical zk_tree_root)").or_default() += 1,
+    }
+
+    if with_prover {
+        // the witness segment: what commit wrote (the PartialWitness itself is a private field)
+        let mut w: Vec<F> = vec![];
+        w.extend(zk_circuits_common::utils::bytes_to_digest(bd(&v.secret)));
+        w.extend(tcf);
+        w.extend(zk_circuits_common::utils::bytes_to_digest(bd(&v.unspendable)));
+        w.push(F(v.input_amount as u64));
+        let fresh = wormhole_prover::build_fresh();
+        o.push(rendered(3210, "WormholeProver build_fresh", vec![s1(1), vec![]], &fresh));
+        match fresh.commit(&ci) {
+            Ok(c) => o.push(rendered(3210, "WormholeProver committed", vec![s1(0), sf(&w)], &c)),
+            Err(_) => *skipped.entry("WormholeProver::commit Err").or_default() += 1,
+        }
+    }
+    o
+}
+
+// ------------------------------------------------------------------------------------------------ needles
+
+struct Needle {
+    field: &'static str,
+    kind: &'static str,
+    text: String,
+}
+struct Needles {
+    v: Vec<Needle>,
+    seen: HashSet<String>,
+}
+impl Needles {
+    fn new() -> Self {
+        Needles { v: vec![], seen: HashSet::new() }
+    }
+    /// minimum length 5: shorter strings (a transfer count of 3) cannot be searched for meaningfully
+    fn add(&mut self, field: &'static str, kind: &'static str, text: String) {
+        if text.len() >= 5 && self.seen.insert(text.clone()) {
+            self.v.push(Needle { field, kind, text });
+        }
+    }
+    fn add_exact(&mut self, field: &'static str, kind: &'static str, text: String) {
+        if self.seen.insert(text.clone()) {
+            self.v.push(Needle { field, kind, text });
+        }
+    }
+    /// a number: decimal, lower and upper hex without prefix and without padding. The `0x`-prefixed and the
+    /// zero-padded forms contain the bare form, so finding none of the bare forms excludes them too.
+    fn scalar(&mut self, field: &'static str, kind: &'static str, x: u64) {
+        self.add(field, kind, format!("{}", x));
+        self.add(field, kind, format!("{:x}", x));
+        self.add(field, kind, format!("{:X}", x));
+    }
+    fn dec_list(bytes: &[u8]) -> String {
+        bytes.iter().map(|b| b.to_string()).collect::<Vec<_>>().join(", ")
+    }
+    /// a byte string: every 4-byte window as a decimal list "171, 205, 3, 4" and as hex (both cases). A longer
+    /// run, or a whole `[..]` / `0x..` rendering, contains a 4-byte window.
+    fn bytes(&mut self, field: &'static str, b: &[u8]) {
+        for w in b.windows(4) {
+            self.add(field, "byte window, decimal list", Self::dec_list(w));
+            self.add(field, "byte window, hex", hex::encode(w));
+            self.add(field, "byte window, HEX", hex::encode_upper(w));
+        }
+    }
+    /// the felts a byte string or number is turned into
+    fn felts(&mut self, field: &'static str, kind: &'static str, fs: &[F]) {
+        for f in fs {
+            self.scalar(field, kind, f.to_canonical_u64());
+            if f.0 != f.to_canonical_u64() {
+                self.scalar(field, kind, f.0);
+            }
+        }
+        if fs.len() >= 2 {
+            let l: Vec<String> = fs.iter().map(|f| f.to_canonical_u64().to_string()).collect();
+            for w in l.windows(2) {
+                self.add(field, kind, w.join(", "));
+            }
+        }
+    }
+    /// a 32-byte value: windows, LE u64 limbs (the bytes_to_digest felts), BE u64 limbs, LE/BE u32 limbs
+    fn digest32(&mut self, field: &'static str, b: &B32) {
+        self.bytes(field, b);
+        let limbs: Vec<F> = digest_limbs(b).iter().map(|&l| F(l)).collect();
+        self.felts(field, "8-byte LE limb (bytes_to_digest felt)", &limbs);
+        for c in b.chunks(8) {
+            self.scalar(field, "8-byte BE limb", u64::from_be_bytes(c.try_into().unwrap()));
+        }
+        for c in b.chunks(4) {
+            self.scalar(field, "4-byte LE limb", u32::from_le_bytes(c.try_into().unwrap()) as u64);
+            self.scalar(field, "4-byte BE limb", u32::from_be_bytes(c.try_into().unwrap()) as u64);
+        }
+    }
+    fn number(&mut self, field: &'static str, x: u64, width: usize) {
+        self.scalar(field, "integer", x);
+        let le = &x.to_le_bytes()[..width];
+        let be = &x.to_be_bytes()[8 - width..];
+        if x >= 1 << 20 {
+            self.add(field, "LE bytes, hex", hex::encode(le));
+            self.add(field, "LE bytes, HEX", hex::encode_upper(le));
+            self.add(field, "LE bytes, decimal list", Self::dec_list(le));
+            self.add(field, "BE bytes, decimal list", Self::dec_list(be));
+        }
+    }
+}
+
+fn needles_of(v: &Priv) -> Needles {
+    let mut n = Needles::new();
+    n.digest32("secret", &v.secret);
+    n.digest32("unspendable_account (deposit account)", &v.unspendable);
+    // the account UnspendableAccount::from_secret derives (also redacted)
+    let derived = UnspendableAccount::from_secret(bd(&v.secret));
+    n.digest32("account_id derived from the secret", &*digest_to_bytes(derived.account_id));
+    n.number("transfer_count", v.transfer_count, 8);
+    n.felts("transfer_count", "u64_to_felts limb", &u64_to_felts(v.transfer_count));
+    n.number("input_amount", v.input_amount as u64, 4);
+    n.bytes("digest logs", &v.digest);
+    n.felts("digest logs", "bytes_to_felts (4 bytes/felt)", &bytes_to_felts(&v.digest).unwrap());
+    for c in v.digest.chunks(4) {
+        if c.len() == 4 {
+            n.scalar("digest logs", "4-byte BE limb", u32::from_be_bytes(c.try_into().unwrap()) as u64);
+        }
+    }
+    for l in &v.siblings {
+        for s in l {
+            n.digest32("merkle siblings", s);
+        }
+    }
+    n.bytes("merkle positions", &v.positions);
+    if !v.positions.is_empty() {
+        n.add_exact("merkle positions", "whole list", format!("[{}]", Needles::dec_list(&v.positions)));
+        n.add("merkle positions", "whole list", Needles::dec_list(&v.positions));
+    }
+    n
+}
+
+/// index of a needle set by length, for one pass per length over a haystack
+struct Index<'a> {
+    by_len: HashMap<usize, HashMap<&'a [u8], usize>>,
+}
+impl<'a> Index<'a> {
+    fn new(n: &'a Needles) -> Self {
+        let mut by_len: HashMap<usize, HashMap<&'a [u8], usize>> = HashMap::new();
+        for (i, x) in n.v.iter().enumerate() {
+            by_len.entry(x.text.len()).or_default().insert(x.text.as_bytes(), i);
+        }
+        Index { by_len }
+    }
+    /// indices of the needles that occur in `hay`
+    fn find(&self, hay: &[u8]) -> Vec<usize> {
+        let mut hits = vec![];
+        for (&len, set) in &self.by_len {
+            if hay.len() < len {
+                continue;
+            }
+            for w in hay.windows(len) {
+                if let Some(&i) = set.get(w) {
+                    hits.push(i);
+                }
+            }
+        }
+        hits.sort();
+        hits.dedup();
+        hits
+    }
+}
+
+/// every run of whitespace -> one space (so that a pretty-printed list reads "171, 205, 3")
+fn collapse_ws(s: &str) -> String {
+    let mut o = String::with_capacity(s.len());
+    let mut in_ws = false;
+    for c in s.chars() {
+        if c.is_whitespace() {
+            if !in_ws {
+                o.push(' ');
+            }
+            in_ws = true;
+        } else {
+            o.push(c);
+            in_ws = false;
+        }
+    }
+    o
+}
+
+/// Everything the outputs may legitimately contain: every public value in every form a Debug impl prints
+/// (and a few more), plus all type / field names and literals. Built from the public values alone.
+fn public_corpus(p: &Publ, v: &Priv) -> String {
+    let mut c = String::new();
+    let mut line = |s: String| {
+        c.push_str(&s);
+        c.push('\n');
+    };
+    for x in [p.asset_id, p.out1, p.out2, p.fee, p.block_number] {
+        line(format!("{}", x));
+    }
+    line(format!("{} {} {}", p.literal_depth, v.siblings.len(), v.siblings.len() + 1));
+    let mut digests = vec![p.nullifier, p.exit1, p.exit2, p.block_hash, p.parent_hash, p.state_root, p.extrinsics_root, p.zk_tree_root];
+    // the hash Nullifier::from_preimage computes is printed (it is the public nullifier)
+    let n = Nullifier::from_preimage(bd(&v.secret), v.transfer_count);
+    digests.push(*digest_to_bytes(n.hash));
+    for d in digests {
+        line(hex::encode(d));
+        line(hex::encode_upper(d));
+        line(format!("[{}]", Needles::dec_list(&d)));
+        let limbs: Vec<String> = digest_limbs(&d).iter().map(|&l| F(l).to_canonical_u64().to_string()).collect();
+        line(format!("[{}]", limbs.join(", ")));
+    }
+    line(SKELETON.to_string());
+    c
+}
+
+const SKELETON: &str = "PublicCircuitInputs asset_id output_amount_1 output_amount_2 volume_fee_bps nullifier exit_account_1 \
+exit_account_2 block_hash block_number PrivateCircuitInputs secret transfer_count unspendable_account parent_hash state_root \
+extrinsics_root digest input_amount zk_tree_root zk_merkle_siblings zk_merkle_positions CircuitInputs public private Nullifier hash \
+UnspendableAccount account_id ZkLeafData to_account ZkMerkleProofData root_hash depth siblings positions leaf is_not_dummy \
+HeaderInputs BlockHeader header WormholeProver circuit_data partial_witness committed \"[REDACTED]\" \"[ProverCircuitData]\" \
+BytesDigest(0x true false";
+
+// ------------------------------------------------------------------------------------------------ main
+
+fn depth_for(r: &mut Rng) -> usize {
+    match r.below(4) {
+        0 => *r.pick(&[0usize, 1, 2, MAX_DEPTH - 1, MAX_DEPTH]),
+        _ => r.below(MAX_DEPTH as u64 + 1) as usize,
+    }
+}
+
+/// private values for iteration `i`, re-drawn until none of their renderings occurs in the public corpus
+fn draw_private(r: &mut Rng, i: u64, p: &Publ, depth: usize, other: Option<&Priv>, redraws: &mut u64) -> (Priv, Needles) {
+    let mut tries = 0;
+    loop {
+        // the same kind of value a few times, then the next kind, finally plain random ones
+        let tag = if tries >= 40 { "random" } else { PRIV_TAGS[((i + tries / 8) % PRIV_TAGS.len() as u64) as usize] };
+        let v = gen_private(r, tag, depth);
+        let n = needles_of(&v);
+        let corpus = public_corpus(p, &v);
+        let hits = Index::new(&n).find(corpus.as_bytes());
+        if std::env::var("C32_DEBUG").is_ok() {
+            for h in hits.iter().take(3) {
+                eprintln!("redraw {} {} [{}] {}", tag, n.v[*h].field, n.v[*h].kind, n.v[*h].text);
+            }
+        }
+        let hit = !hits.is_empty();
+        // a twin differs from the original in every private field
+        let same = other.map_or(false, |o| {
+            o.secret == v.secret
+                || o.transfer_count == v.transfer_count
+                || o.unspendable == v.unspendable
+                || o.digest == v.digest
+                || o.input_amount == v.input_amount
+                || (depth > 0 && (o.siblings == v.siblings || o.positions == v.positions))
+        });
+        if !hit && !same {
+            return (v, n);
+        }
+        *redraws += 1;
+        tries += 1;
+    }
+}
+
+fn main() {
+    quiet_panics();
+    let check = std::env::args().any(|a| a == "--check");
+    let seed = seed_from_env();
+    let thorough = tier_is_thorough();
+    let mut out = Out::new();
+
+    // iterations whose cases are printed; --check runs those same iterations first, then more
+    let n_print: u64 = if thorough { 1200 } else { 150 };
+    let n_check: u64 = if thorough { 8000 } else { 400 };
+    let prover_every: u64 = if thorough { 12 } else { 6 };
+    let n = if check { n_check } else { n_print };
+
+    let mut skipped: HashMap<&'static str, u64> = HashMap::new();
+    let (mut renderings, mut needle_count, mut searched, mut pairs, mut redraws, mut violations) = (0u64, 0u64, 0u64, 0u64, 0u64, 0u64);
+    let mut fields_differing = 0u64;
+
+    for i in 0..n {
+        // independent streams: the printed cases do not depend on --check drawing the twins
+        let mut rp = Rng::new(seed.wrapping_mul(0x1000_0000_01B3).wrapping_add(i.wrapping_mul(3)));
+        let mut rv = Rng::new(seed.wrapping_mul(0x1000_0000_01B3).wrapping_add(i.wrapping_mul(3) + 1));
+        let mut rt = Rng::new(seed.wrapping_mul(0x1000_0000_01B3).wrapping_add(i.wrapping_mul(3) + 2));
+        let p = gen_public(&mut rp, PRIV_TAGS[(i % PRIV_TAGS.len() as u64) as usize] == "boundary");
+        let depth = depth_for(&mut rp);
+        let (v, needles) = draw_private(&mut rv, i, &p, depth, None, &mut redraws);
+        // a prover only for inputs commit accepts, and only for iterations both modes share
+        let with_prover = i % prover_every == 0 && i < n_print && canonical_limbs(&p.zk_tree_root);
+        let objs = match no_panic(|| build_all(&p, &v, with_prover, &mut skipped)) {
+            Some(o) => o,
+            None => {
+                out.note("violation", &format!("{{\"what\":\"panic while building or formatting\",\"iteration\":{},\"seed\":{}}}", i, seed));
+                violations += 1;
+                continue;
+            }
+        };
+        renderings += 2 * objs.len() as u64;
+
+        if !check {
+            for o in &objs {
+                for (mode, text) in [(0i128, &o.compact), (1, &o.pretty)] {
+                    let mut segs = vec![vec![mode]];
+                    segs.extend(o.segs.iter().cloned());
+                    let bytes: Vec<i128> = text.bytes().map(|b| b as i128).collect();
+                    out.case(o.fid, &format!("{}/{}", o.what, v.tag), &segs, &bytes);
+                }
+            }
+            continue;
+        }
+
+        // (c) needle search
+        let index = Index::new(&needles);
+        needle_count += needles.v.len() as u64;
+        for o in &objs {
+            for (mode, text) in [("{:?}", &o.compact), ("{:#?}", &o.pretty)] {
+                let mut hits = index.find(text.as_bytes());
+                if mode == "{:#?}" {
+                    hits.extend(index.find(collapse_ws(text).as_bytes()));
+                    hits.sort();
+                    hits.dedup();
+                }
+                searched += needles.v.len() as u64;
+                for h in hits.iter().take(2) {
+                    let nd = &needles.v[*h];
+                    violations += 1;
+                    out.note(
+                        "violation",
+                        &format!(
+                            "{{\"what\":\"private value printed\",\"type\":\"{}\",\"mode\":\"{}\",\"field\":\"{}\",\"needle_kind\":\"{}\",\"needle\":\"{}\",\"private_tag\":\"{}\",\"iteration\":{},\"seed\":{}}}",
+                            o.what, mode, nd.field, nd.kind, nd.text.replace('"', "'"), v.tag, i, seed
+                        ),
+                    );
+                }
+            }
+        }
+
+        // (b) twins: same public fields, every private field re-drawn.
+        //     first twin: same path length (which `depth` of ZkMerkleProofData publishes);
+        //     second twin: a different path length, compared on every type that does not print `depth = siblings.len()`
+        let depth2 = (depth + 1 + rt.below(MAX_DEPTH as u64) as usize) % (MAX_DEPTH + 1);
+        for (twin_no, d) in [(1, depth), (2, depth2)] {
+            let (t, _) = draw_private(&mut rt, i + twin_no, &p, d, Some(&v), &mut redraws);
+            let diff = [t.secret != v.secret, t.transfer_count != v.transfer_count, t.unspendable != v.unspendable, t.digest != v.digest,
+                t.input_amount != v.input_amount, (d == 0 && depth == 0) || t.siblings != v.siblings, (d == 0 && depth == 0) || t.positions != v.positions];
+            fields_differing += diff.iter().filter(|&&x| x).count() as u64;
+            let twins = match no_panic(|| build_all(&p, &t, with_prover, &mut HashMap::new())) {
+                Some(o) => o,
+                None => continue,
+            };
+            if twins.len() != objs.len() {
+                violations += 1;
+                out.note("violation", &format!("{{\"what\":\"twin builds a different set of objects\",\"iteration\":{},\"seed\":{}}}", i, seed));
+                continue;
+            }
+            for (a, b) in objs.iter().zip(twins.iter()) {
+                if a.what == "Nullifier::from_preimage" {
+                    // its printed hash is a function of the secret by design (it is the public nullifier)
+                    continue;
+                }
+                if twin_no == 2 && (a.what == "ZkMerkleProofData::new" || a.what == "ZkMerkleProofData::try_from(&CircuitInputs)") {
+                    continue;
+                }
+                for (mode, x, y) in [("{:?}", &a.compact, &b.compact), ("{:#?}", &a.pretty, &b.pretty)] {
+                    pairs += 1;
+                    if x != y || a.what != b.what {
+                        violations += 1;
+                        let at = x.bytes().zip(y.bytes()).position(|(c, d)| c != d).unwrap_or(x.len().min(y.len()));
+                        let from = at.saturating_sub(40);
+                        out.note(
+                            "violation",
+                            &format!(
+                                "{{\"what\":\"rendering depends on private fields\",\"type\":\"{}\",\"mode\":\"{}\",\"twin\":\"{}\",\"first_difference_at\":{},\"context\":\"{}\",\"iteration\":{},\"seed\":{}}}",
+                                a.what,
+                                mode,
+                                if twin_no == 1 { "same path length" } else { "different path length" },
+                                at,
+                                x[from..(at + 24).min(x.len())].replace('"', "'").replace('\n', " "),
+                                i,
+                                seed
+                            ),
+                        );
+                    }
+                }
+            }
+        }
+    }
+
+    // observation (not one of the listed redacting impls): the re-exported common ZkMerkleProof derives Debug
+    if check {
+        let mut r = Rng::new(seed);
+        let sib = [priv_bytes::<32>(&mut r, "allsame", true), priv_bytes::<32>(&mut r, "counting", true), priv_bytes::<32>(&mut r, "random", true)];
+        let zp = ZkMerkleProof::new(7, vec![sib], vec![2], [0x11; 32], [0x22; 32]);
+        let s = format!("{:?}", zp);
+        let leaks = s.contains(&Needles::dec_list(&sib[0][..4])) && s.contains("positions: [2]");
+        out.note("observation", &format!("wormhole_circuit::zk_merkle_proof::ZkMerkleProof (re-export of zk_circuits_common::zk_merkle::ZkMerkleProof, #[derive(Debug)]) prints siblings and positions: {}", leaks));
+    }
+
+    out.note("renderings", &renderings.to_string());
+    out.note("needles", &needle_count.to_string());
+    out.note("needle_searches", &searched.to_string());
+    out.note("pairs", &pairs.to_string());
+    out.note("twin_private_fields_differing", &format!("{} of {}", fields_differing, 14 * if check { n } else { 0 }));
+    out.note("redraws", &redraws.to_string());
+    out.note("violations", &violations.to_string());
+    out.note("iterations", &n.to_string());
+    let mut sk: Vec<_> = skipped.into_iter().collect();
+    sk.sort();
+    for (k, c) in sk {
+        out.note("skipped", &format!("{}: {}", k, c));
+    }
+    out.flush();
+}
